@@ -77,7 +77,7 @@ func Harness_C25_WindowExactWeights() {
 
 // Selection: health, zero weights and locality under the three local-read policies.
 //
-//verif:harness prop=C25 bounds="1..2 replicas with weights from {0,1,2,5} (quick) / 1..3 replicas with weights 0..6 (thorough); datacenter local/remote enumerated; up/down and pool failure symbolic per replica; counter of each balancer used: every residue modulo its queue length (wrap-around is the window harness's subject); policy closed/prefer/force"
+//verif:harness prop=C25 maxpaths=3000000 timeout=2400 bounds="1..2 replicas with weights from {0,1,2,5} (quick) / 1..3 replicas with weights 0..6 (thorough); datacenter local/remote enumerated; up/down and pool failure symbolic per replica; counter of each balancer used: every residue modulo its queue length (wrap-around is the window harness's subject); policy closed/prefer/force"
 func Harness_C25_Selection() {
 	n := vs.IntRange("n", 1, vs.Pick(2, 3))
 	wset := []int{0, 1, 2, 5}
